@@ -301,6 +301,11 @@ def c02(h, res, ref):
             d = [(p, a.get(p), b.get(p)) for p in sorted(set(a) | set(b)) if a.get(p) != b.get(p)]
             out.append(dict(i=r["i"], kind="tree-differs-from-reference", detail=[c["op"]] + d[:3]))
             break
+        if c["op"] in ("createfile", "writefile") and r["out"] == "ok" and h["blobs"][c.get("blob", 0)]["len"] > 0:
+            # content was written: the entry's modification time is the time of this call
+            e = {x["path"]: x for x in o["tree"]}.get(absname(c["name"]))
+            if e is not None and e["kind"] == "f" and not (r["t0"] - 10**9 <= e["mtime"] <= r["t1"] + 10**9):
+                out.append(dict(i=r["i"], kind="mtime-not-stamped-by-write", detail=[c["name"], e["mtime"], r["t0"], r["t1"]]))
         if c["op"] == "chtimes" and r["out"] == "ok":
             p = absname(c["name"])
             e = {x["path"]: x for x in o["tree"]}.get(p)
